@@ -2,6 +2,7 @@ package main
 
 import (
 	"context"
+	"sort"
 	"fmt"
 	"os"
 	"os/exec"
@@ -275,6 +276,30 @@ func (e *Engine) getModel(file, text string, o Obligation) string {
 // individually by the portfolio (sliced queries, all solvers, counterexamples).
 func solveBatch(dir string, e *Engine, obls []Obligation, timeout time.Duration) []Result {
 	res := make([]Result, len(obls))
+	// Declarations are fed in program order, so the members must be visited in
+	// the order of their prefixes: an obligation must never see an assumption
+	// that was made after it (for instance its own conclusion, assumed for the
+	// code that follows). perm maps visiting order to the caller's order.
+	perm := make([]int, len(obls))
+	for i := range perm {
+		perm[i] = i
+	}
+	sort.SliceStable(perm, func(a, b int) bool { return obls[perm[a]].Prefix < obls[perm[b]].Prefix })
+	sorted := make([]Obligation, len(obls))
+	for i, p := range perm {
+		sorted[i] = obls[p]
+	}
+	orig := obls
+	obls = sorted
+	defer func() {
+		// hand the results back in the caller's order
+		out := make([]Result, len(res))
+		for i, p := range perm {
+			out[p] = res[i]
+		}
+		copy(res, out)
+		_ = orig
+	}()
 	var sb strings.Builder
 	// every check-sat of the batch gets a short limit: what is not immediate is
 	// left to the individual (sliced, portfolio) path
